@@ -300,4 +300,50 @@ theorem fitsOf_streamFits (c : StreamCfg) (o : Opts) (h : Hdr) : ∀ (d : Nat) (
     simp only [streamFits, fitsOf, List.map_cons]
     exact congrArg _ (fitsOf_streamFits c o h _ rest)
 
+/-- VALIDATION ORDER: validating each message right before it is written (stream) and validating all messages up front
+(batch) hand the same messages to `encodeMessage`, in the same order, with the same validator state — whenever the
+batch gate accepts the list. -/
+theorem writeAllV_eq {σ : Type} (V : MsgValidator σ) (F : Faults) (o : Opts) (h : Hdr) :
+    ∀ (ms ms' : List WMsg) (s : Stream) (vs : σ), ms.all (protoOK h.protoVer) = true → validateAll V vs ms = some ms' →
+    (Stream.writeAllV V F o h s vs ms).1 = (Stream.writeAll F o h s ms').1 ∧
+    (Stream.writeAllV V F o h s vs ms).2.2 = (if (Stream.writeAll F o h s ms').2 then Res.ok else Res.err)
+  | [], ms', s, vs, _, hv => by
+    simp only [validateAll, Option.some.injEq] at hv
+    subst hv
+    simp [Stream.writeAllV, Stream.writeAll]
+  | m :: ms, ms', s, vs, hp, hv => by
+    simp only [List.all_cons, Bool.and_eq_true] at hp
+    unfold validateAll at hv
+    cases hstep : V.step vs m with
+    | mk vs' r =>
+      rw [hstep] at hv
+      cases r with
+      | none => simp at hv
+      | some m' =>
+        simp only at hv
+        cases hrest : validateAll V vs' ms with
+        | none => rw [hrest] at hv; simp at hv
+        | some rest' =>
+          rw [hrest] at hv
+          simp only [Option.map_some, Option.some.injEq] at hv
+          subst hv
+          unfold Stream.writeAllV Stream.writeAll
+          have hwm : s.writeMessageV V F o h vs m =
+              ((s.writeMessage F o h m').1, (if (s.ensureHeader F h).2 then vs' else vs),
+                if (s.writeMessage F o h m').2 then Res.ok else Res.err) := by
+            unfold Stream.writeMessageV Stream.writeMessage
+            by_cases h1 : (s.ensureHeader F h).2 = true
+            · simp [h1, hp.1, hstep]
+            · simp [h1]
+          rw [hwm]
+          by_cases hok : (s.writeMessage F o h m').2 = true
+          · have h1 : (s.ensureHeader F h).2 = true := by
+              unfold Stream.writeMessage at hok
+              by_cases h1 : (s.ensureHeader F h).2 = true
+              · exact h1
+              · simp [h1] at hok
+            simp only [hok, h1, if_true]
+            exact writeAllV_eq V F o h ms rest' _ vs' hp.2 hrest
+          · simp [hok]
+
 end Fit.Writer
